@@ -99,6 +99,38 @@ def _run(ix, R):
         R.check('1.layers', 'ALG', site, 'layer pressure = geometric mean of its two levels: L[:-1]*sqrt(L[1:]/L[:-1])',
                 fl.tab.equal(lay.value, want) and fl.events.index(lev) < fl.events.index(lay),
                 key=fmt(fl, lay.value), detail=fmt(fl, lay.value), loc=f.loc(lay.node))
+    # array / file pressure profiles: the levels are rebuilt around the very layer pressures the model reads
+    AP = 'taurex/data/profiles/pressure/arraypressure.py'
+    site = AP + '::ArrayPressureProfile.compute_pressure_profile'
+    with R.guard('1.array.levels', 'ALG', site, 'array levels'):
+        f = ix.func(site)
+        fl = mkflow(ix, site)
+        pf = mkflow(ix, AP + '::ArrayPressureProfile.profile')
+        layers = the_return(pf).value
+        lev = [e for e in fl.of('store') if fmt(fl, e.target) == 'self.pressure_profile_levels']
+        want = spec(fl, '10**append(log10(L) - gradient(log10(L))/2, log10(L)[-1] + gradient(log10(L))[-1]/2)',
+                    {'L': pf.tab.fmt(layers)})
+        ok = len(lev) == 1 and fl.tab.equal(lev[0].value, want) and not lev[0].guards and not lev[0].loops
+        R.check('1.array.levels', 'ALG', site,
+                'levels = 10**append(logp - grad(logp)/2, logp[-1] + grad(logp)[-1]/2) with logp = log10 of the layer '
+                'pressures that `profile` returns (%s): every layer is bracketed by its own two levels, in the same order'
+                % pf.tab.fmt(layers), ok,
+                key='; '.join(fmt(fl, e.value) for e in lev), detail='; '.join(fmt(fl, e.value) for e in lev),
+                loc=f.loc(lev[0].node) if lev else f.loc())
+    site = AP + '::ArrayPressureProfile.__init__'
+    with R.guard('1.array.order', 'ALG', site, 'array order'):
+        f = ix.func(site)
+        fl = mkflow(ix, site)
+        pe = param_env(fl, f, ['array', 'reverse'])
+        st = [e for e in fl.of('store') if fmt(fl, e.target) == 'self.pressure_profile']
+        vals = []
+        for e in st:
+            pol = [g.positive for g in e.guards if g.rf is not None and fl.tab.equal(g.rf, pe['reverse'])]
+            vals.append((pol[0] if pol else None, e.value))
+        ok = sorted((p is True, fl.tab.equal(v, spec(fl, 'array[::-1]' if p else 'array', pe))) for p, v in vals) == \
+            [(False, True), (True, True)] and all(p is not None for p, v in vals)
+        R.check('1.array.order', 'ALG', site, 'layer pressures are the given array, reversed exactly when reverse is set',
+                ok, key=str([(p, fmt(fl, v)) for p, v in vals]), detail=str([(p, fmt(fl, v)) for p, v in vals]), loc=f.loc())
     site = PP + '::PressureProfile.nLevels'
     with R.guard('1.nlevels', 'ALG', site, 'nLevels'):
         f = ix.func(site)
